@@ -4,6 +4,7 @@ package main
 import (
 	"bytes"
 	"fmt"
+	simplefixgo "github.com/b2broker/simplefix-go"
 	"runtime"
 	"strconv"
 	"strings"
@@ -103,7 +104,7 @@ type cell struct {
 
 func main() {
 	c := vk.Init("C16")
-	c.Rule("matrix: admin type {Logon, Logout, Heartbeat, TestRequest, ResendRequest, a Logon naming other parties / interval / credentials} x damage {wrong checksum, wrong body length, non-numeric body field, non-numeric header field, wrong checksum/length + missing or non-numeric MsgSeqNum, undamaged but not permitted in the state, not permitted in the state and MsgSeqNum missing or non-numeric (correct framing), correct framing with a non-numeric or EMPTY MsgSeqNum value, an EMPTY numeric body field} x session state {waiting, logged on, logged on with the session's own TestRequest pending (real time, N=1; timer Heartbeats/TestRequests are not counted as answers)} x role x position (after 0..3 valid messages) x follow-up valid traffic; plus, over a scripted connection while logged on, every admin type with a CheckSum field whose value is 0, 1, 2, 4 or 5 characters long followed by a valid TestRequest; tag 35 itself is never damaged. Oracle per offending step: exactly one message emitted and it is a Reject with 45 = the offending 34 (or 371 = 34 when 34 is missing/non-numeric); IsLogged unchanged; context not cancelled and handler still running; the following valid message has its normal effect (TestRequest answered when logged on, good Logon accepted when waiting). distinct = matrix cell x position x seqnum; non-trivial = all")
+	c.Rule("matrix: admin type {Logon, Logout, Heartbeat, TestRequest, ResendRequest, a Logon naming other parties / interval / credentials} x damage {wrong checksum, wrong body length, non-numeric body field, non-numeric header field, wrong checksum/length + missing or non-numeric MsgSeqNum, undamaged but not permitted in the state, not permitted in the state and MsgSeqNum missing or non-numeric (correct framing), correct framing with a non-numeric or EMPTY MsgSeqNum value, an EMPTY numeric body field} x session state {waiting, logged on, logged on with the session's own TestRequest pending (real time, N=1; timer Heartbeats/TestRequests are not counted as answers)} x role x position (after 0..3 valid messages) x follow-up valid traffic; plus, over a scripted connection while logged on, every admin type with a CheckSum field whose value is 0, 1, 2, 4 or 5 characters long followed by a valid TestRequest; in every sixth cell two application observers for the message type, registered before Session.Run, are removed in registration order before the invalid message arrives; tag 35 itself is never damaged. Oracle per offending step: exactly one message emitted and it is a Reject with 45 = the offending 34 (or 371 = 34 when 34 is missing/non-numeric); IsLogged unchanged; context not cancelled and handler still running; the following valid message has its normal effect (TestRequest answered when logged on, good Logon accepted when waiting). distinct = matrix cell x position x seqnum; non-trivial = all")
 	c.Assume("a message whose only defect is a missing sequence number is not in the statement's list; 'state-not-permitted' cells are: Heartbeat/TestRequest/ResendRequest/Logout while waiting, Logon while logged on")
 	reps := c.Pick(10, 120)
 	var cells []cell
@@ -225,7 +226,19 @@ func runCell(c *vk.Ctx, ce cell, i int) {
 		hb, lim = 1, &session.IntLimits{Min: 1, Max: 60}
 	}
 	replay := map[string]interface{}{"cell": desc, "index": i, "seed": c.Seed}
-	r, err := rig.NewStepRig(rig.StepCfg{Role: ce.role, HeartBtInt: hb, Limits: lim, SentinelBarrier: true})
+	// in every sixth cell the application registers two observers for the message type before Session.Run and takes
+	// them out again, in registration order, before the invalid message arrives
+	var obs [2]int64
+	withObservers := i%6 == 5
+	var beforeRun func(h *simplefixgo.DefaultHandler, s *session.Session)
+	if withObservers {
+		desc += " [two application observers for the type registered before Run, removed in order]"
+		beforeRun = func(h *simplefixgo.DefaultHandler, s *session.Session) {
+			obs[0] = h.HandleIncoming(a.typ, func([]byte) bool { return true })
+			obs[1] = h.HandleIncoming(a.typ, func([]byte) bool { return true })
+		}
+	}
+	r, err := rig.NewStepRig(rig.StepCfg{Role: ce.role, HeartBtInt: hb, Limits: lim, SentinelBarrier: true, BeforeRun: beforeRun})
 	if err != nil {
 		c.Inconclusive("rig: " + err.Error())
 		return
@@ -289,6 +302,11 @@ func runCell(c *vk.Ctx, ce cell, i int) {
 			c.Inconclusive("watchdog: " + desc)
 			return
 		}
+	}
+	if withObservers {
+		_ = r.H.RemoveIncomingHandler(a.typ, obs[0])
+		_ = r.H.RemoveIncomingHandler(a.typ, obs[1])
+		c.Count("cells_with_observers_removed", 1)
 	}
 	base := a.build(p)
 	seq := strconv.Itoa(p.Seq)
